@@ -228,7 +228,10 @@ def replay_all(payload):
 
 def native_check(payload):
     from contracts.gridcheck import run_families
-    return run_families(payload)
+    r = run_families(payload)
+    r['reproduced'] = bool(r['c05'])
+    r['observed'] = r['c05'][:4]
+    return r
 
 
 def bounded_checks(tier, seed):
